@@ -5052,7 +5052,8 @@ func (t *Terminal) Loop() error {
 				t.mutex.Unlock()
 				return false
 			case actBracketedPasteBegin:
-				current := []rune(t.input)
+				// Make a copy; the input is edited in place
+				current := copySlice(t.input)
 				t.pasting = &current
 			case actBracketedPasteEnd:
 				if t.pasting != nil {
